@@ -64,11 +64,34 @@ def best (root cur rs : List String) (cands : List File) : List File :=
     | some m => cands.filter fun f => score root cur rs f == m
     | none => []
 
+/-- the path of a file below the workspace root (the candidates share the root, so this orders them as their
+    absolute paths do) -/
+def File.rel (f : File) : String := "/".intercalate (f.dirs ++ [f.name])
+
+/-- the smaller of two files by path -/
+def minPath (a b : File) : File := if b.rel < a.rel then b else a
+
+/-- the candidate with the smallest path -/
+def pickMin : List File → Option File
+  | [] => none
+  | f :: r => match pickMin r with
+    | none => some f
+    | some g => some (minPath f g)
+
+/-- `GetBestMatchReferFile` after the sort: highest score, equal scores ordered by path -/
+def choose (root cur rs : List String) (cands : List File) : Option File := pickMin (best root cur rs cands)
+
 /-- CheckReferFile for `require(str)` (components of str after '.' → '/'): the files the analysis may
     load; `[]` = not found (type-6 diagnostic unless a .so exists at the workspace root) -/
 def resolveRequire (files : List File) (root cur rs : List String) : List File :=
   match best root cur rs (files.filter (matchPre root rs)) with
   | [] => best root cur (rs ++ ["init.lua"]) (files.filter (matchSuf root (rs ++ ["init.lua"])))
+  | r => r
+
+/-- the file the analysis loads -/
+def loadRequire (files : List File) (root cur rs : List String) : Option File :=
+  match choose root cur rs (files.filter (matchPre root rs)) with
+  | none => choose root cur (rs ++ ["init.lua"]) (files.filter (matchSuf root (rs ++ ["init.lua"])))
   | r => r
 
 /-- go-to-definition / hover on the string: patterns name.lua, then name/init.lua -/
@@ -80,6 +103,12 @@ def withLua : List String → List String
 def resolveDefine (files : List File) (root cur rs : List String) : List File :=
   match best root cur (withLua rs) (files.filter (matchSuf root (withLua rs))) with
   | [] => best root cur (rs ++ ["init.lua"]) (files.filter (matchSuf root (rs ++ ["init.lua"])))
+  | r => r
+
+/-- the file go-to-definition / hover on the string open -/
+def loadDefine (files : List File) (root cur rs : List String) : Option File :=
+  match choose root cur (withLua rs) (files.filter (matchSuf root (withLua rs))) with
+  | none => choose root cur (rs ++ ["init.lua"]) (files.filter (matchSuf root (rs ++ ["init.lua"])))
   | r => r
 
 /-! ### S-mod -/
